@@ -526,6 +526,7 @@ func c14Child(c *Ctx) {
 	}
 	defer f.Close()
 	from, _ := strconv.Atoi(os.Getenv("HX_C14_FROM"))
+	server.VerifYieldHook = c14YieldHook
 	go c14Watchdog()
 	sc := bufio.NewScanner(f)
 	sc.Buffer(make([]byte, 1<<20), 1<<28)
@@ -572,10 +573,27 @@ func (cl *c14Client) sleep() {
 
 func (cl *c14Client) PublishDiagnostics(ctx context.Context, p *protocol.PublishDiagnosticsParams) error {
 	cl.sleep()
-	cl.mu.Lock()
-	cl.published[p.URI]++
-	cl.mu.Unlock()
 	return nil
+}
+
+type c14ClientKey struct{}
+
+// c14YieldHook is installed as server.VerifYieldHook in the child: every diagnostics task calls
+// it right before it takes publishMu (after it stored its include tree, if it was still
+// current) and calls the returned function when it is done — whether or not it published.
+// That is the "task finished" signal of the harness; the client stub is found through the
+// context the notification was sent with.
+func c14YieldHook(ctx context.Context, uri protocol.DocumentURI, version uint64) func() {
+	cl, _ := ctx.Value(c14ClientKey{}).(*c14Client)
+	if cl == nil {
+		return nil
+	}
+	cl.sleep()
+	return func() {
+		cl.mu.Lock()
+		cl.published[uri]++
+		cl.mu.Unlock()
+	}
 }
 
 func (cl *c14Client) LogMessage(ctx context.Context, p *protocol.LogMessageParams) error { return nil }
@@ -648,21 +666,22 @@ type c14Resp struct {
 	inflight int
 	overlap  bool
 	diagOff  bool
+	inc      bool
 	ws       bool
 }
 
 var c14ReadsResolved = map[string]bool{"completion": true, "hover": true, "definition": true, "references": true}
 
 type c14Run struct {
-	srv     *server.Server
-	cl      *c14Client
-	uris    []protocol.DocumentURI
-	lastID  map[int]string
-	started map[protocol.DocumentURI]int
-	overlap map[protocol.DocumentURI]bool
-	opened  map[int]bool
-	diagOff bool // a configuration with features.diagnostics=false has been sent: tasks may end without storing
-	resps   []c14Resp
+	srv      *server.Server
+	cl       *c14Client
+	uris     []protocol.DocumentURI
+	lastID   map[int]string
+	started  map[protocol.DocumentURI]int
+	overlap  map[protocol.DocumentURI]bool
+	opened   map[int]bool
+	diagOff  bool // a configuration with features.diagnostics=false has been sent: tasks may end without storing
+	resps    []c14Resp
 	panicked string
 }
 
@@ -687,6 +706,10 @@ func (r *c14Run) request(i int, kind string, d, l, col int) {
 	inflight := r.started[uri] - r.cl.published[uri]
 	r.cl.mu.Unlock()
 	ws := r.srv.Workspace() != nil && r.srv.Workspace().GetResolved() != nil
+	inc := false
+	if text, ok := r.srv.GetDocument(uri); ok {
+		inc = strings.HasPrefix(text, "include ") || strings.Contains(text, "\ninclude ")
+	}
 	var body string
 	switch kind {
 	case "completion":
@@ -695,6 +718,7 @@ func (r *c14Run) request(i int, kind string, d, l, col int) {
 			// ranking ties depend on map iteration order (C15's subject): compare as a set
 			var items []string
 			for _, it := range res.Items {
+				it.SortText = ""
 				b, _ := json.Marshal(it)
 				items = append(items, string(b))
 			}
@@ -745,11 +769,11 @@ func (r *c14Run) request(i int, kind string, d, l, col int) {
 	case "folding":
 		body = c14Canon(r.srv.FoldingRanges(ctx, &protocol.FoldingRangeParams{TextDocumentPositionParams: protocol.TextDocumentPositionParams{TextDocument: td}}))
 	}
-	r.resps = append(r.resps, c14Resp{op: i, kind: kind, doc: d, body: body, inflight: inflight, overlap: r.overlap[uri], diagOff: r.diagOff, ws: ws})
+	r.resps = append(r.resps, c14Resp{op: i, kind: kind, doc: d, body: body, inflight: inflight, overlap: r.overlap[uri], diagOff: r.diagOff, inc: inc, ws: ws})
 }
 
-// noteTask mirrors HL.Bg.Guard: a change while a task for the same document is in flight
-// marks the document as overlapped; a change with nothing in flight clears the mark.
+// noteTask counts the tasks started per document (finished ones are counted by c14YieldHook);
+// "overlap" (a change while a task of the same document is in flight) is kept for the evidence.
 func (r *c14Run) noteTask(uri protocol.DocumentURI) {
 	r.cl.mu.Lock()
 	inflight := r.started[uri] - r.cl.published[uri]
@@ -762,8 +786,8 @@ func (r *c14Run) noteTask(uri protocol.DocumentURI) {
 // before the next message.  Otherwise the stream runs against the live goroutines; in "race"
 // mode configuration replies are withheld until a release op (or the end).
 func c14RunOnce(s *c14Sched, dir string, sequential bool, jitter uint64) (run *c14Run) {
-	ctx := context.Background()
 	cl := &c14Client{gate: make(chan struct{}, 1024), published: map[protocol.DocumentURI]int{}}
+	ctx := context.WithValue(context.Background(), c14ClientKey{}, cl)
 	cl.payloads = append(cl.payloads, map[string]any{})
 	for _, op := range s.Ops {
 		if op.K == "config" {
@@ -921,7 +945,7 @@ func c14RunSched(c *Ctx, s *c14Sched, idx int) map[string]any {
 			break
 		}
 		if len(seq1.resps) != len(run.resps) || len(seq2.resps) != len(run.resps) {
-			diffs = append(diffs, map[string]any{"i": -1, "k": "count", "ws": false, "inflight": 0, "overlap": false, "diagoff": false, "got": fmt.Sprint(len(run.resps)), "want": fmt.Sprint(len(seq1.resps))})
+			diffs = append(diffs, map[string]any{"i": -1, "k": "count", "ws": false, "inflight": 0, "overlap": false, "diagoff": false, "inc": false, "got": fmt.Sprint(len(run.resps)), "want": fmt.Sprint(len(seq1.resps))})
 			continue
 		}
 		for j, got := range run.resps {
@@ -937,7 +961,7 @@ func c14RunSched(c *Ctx, s *c14Sched, idx int) map[string]any {
 				continue
 			}
 			c.Count("resp.diff-" + got.kind)
-			diffs = append(diffs, map[string]any{"i": got.op, "k": got.kind, "d": got.doc, "ws": got.ws, "inflight": got.inflight, "overlap": got.overlap, "diagoff": got.diagOff,
+			diffs = append(diffs, map[string]any{"i": got.op, "k": got.kind, "d": got.doc, "ws": got.ws, "inflight": got.inflight, "overlap": got.overlap, "diagoff": got.diagOff, "inc": got.inc,
 				"got": clip(got.body, 400), "want": clip(seq1.resps[j].body, 400)})
 		}
 	}
